@@ -791,7 +791,7 @@ def node_kmer_iter_tables(F, rep, rule="C18.1"):
         return
     ftys = {f["name"]: f["ty"] for f in F.adts[NKI]["variants"][0]["fields"]}
     extra = [n for n in names if n not in ("kmer_id", "kmer", "num_kmers", "node_seq_slice") and "PhantomData" not in ftys.get(n, "")]
-    if ftys.get("kmer_id") != "usize" or ftys.get("num_kmers") != "usize" or extra:
+    if ftys.get("kmer_id") != "usize" or ftys.get("num_kmers") != "usize" or extra or ftys.get("kmer") != "K":
         rep.inconclusive(rule, "NodeKmerIter/fields", "role discovery: the affine table models two usize counters (kmer_id, num_kmers); the iterator now has %s — "
                          "the end-to-end lemma decides the contract without this table" % {n: ftys[n] for n in names if "PhantomData" not in ftys[n]})
         return
